@@ -9,66 +9,119 @@ import (
 	"github.com/valyala/fasthttp/internal/verif/mcrt"
 )
 
+//go:norace
 func pt(label string) {
 	if w := mcrt.W(); w != nil && !w.Aborting() {
 		w.Point(label, nil)
 	}
 }
 
-func LoadInt32(p *int32) int32          { pt("atomic.load"); return ratomic.LoadInt32(p) }
-func StoreInt32(p *int32, v int32)      { pt("atomic.store"); ratomic.StoreInt32(p, v) }
-func AddInt32(p *int32, d int32) int32  { pt("atomic.add"); return ratomic.AddInt32(p, d) }
+//go:norace
+func LoadInt32(p *int32) int32 { pt("atomic.load"); return ratomic.LoadInt32(p) }
+
+//go:norace
+func StoreInt32(p *int32, v int32) { pt("atomic.store"); ratomic.StoreInt32(p, v) }
+
+//go:norace
+func AddInt32(p *int32, d int32) int32 { pt("atomic.add"); return ratomic.AddInt32(p, d) }
+
+//go:norace
 func SwapInt32(p *int32, v int32) int32 { pt("atomic.swap"); return ratomic.SwapInt32(p, v) }
+
+//go:norace
 func CompareAndSwapInt32(p *int32, o, n int32) bool {
 	pt("atomic.cas")
 	return ratomic.CompareAndSwapInt32(p, o, n)
 }
 
-func LoadInt64(p *int64) int64          { pt("atomic.load"); return ratomic.LoadInt64(p) }
-func StoreInt64(p *int64, v int64)      { pt("atomic.store"); ratomic.StoreInt64(p, v) }
-func AddInt64(p *int64, d int64) int64  { pt("atomic.add"); return ratomic.AddInt64(p, d) }
+//go:norace
+func LoadInt64(p *int64) int64 { pt("atomic.load"); return ratomic.LoadInt64(p) }
+
+//go:norace
+func StoreInt64(p *int64, v int64) { pt("atomic.store"); ratomic.StoreInt64(p, v) }
+
+//go:norace
+func AddInt64(p *int64, d int64) int64 { pt("atomic.add"); return ratomic.AddInt64(p, d) }
+
+//go:norace
 func SwapInt64(p *int64, v int64) int64 { pt("atomic.swap"); return ratomic.SwapInt64(p, v) }
+
+//go:norace
 func CompareAndSwapInt64(p *int64, o, n int64) bool {
 	pt("atomic.cas")
 	return ratomic.CompareAndSwapInt64(p, o, n)
 }
 
-func LoadUint32(p *uint32) uint32           { pt("atomic.load"); return ratomic.LoadUint32(p) }
-func StoreUint32(p *uint32, v uint32)       { pt("atomic.store"); ratomic.StoreUint32(p, v) }
-func AddUint32(p *uint32, d uint32) uint32  { pt("atomic.add"); return ratomic.AddUint32(p, d) }
+//go:norace
+func LoadUint32(p *uint32) uint32 { pt("atomic.load"); return ratomic.LoadUint32(p) }
+
+//go:norace
+func StoreUint32(p *uint32, v uint32) { pt("atomic.store"); ratomic.StoreUint32(p, v) }
+
+//go:norace
+func AddUint32(p *uint32, d uint32) uint32 { pt("atomic.add"); return ratomic.AddUint32(p, d) }
+
+//go:norace
 func SwapUint32(p *uint32, v uint32) uint32 { pt("atomic.swap"); return ratomic.SwapUint32(p, v) }
+
+//go:norace
 func CompareAndSwapUint32(p *uint32, o, n uint32) bool {
 	pt("atomic.cas")
 	return ratomic.CompareAndSwapUint32(p, o, n)
 }
 
-func LoadUint64(p *uint64) uint64           { pt("atomic.load"); return ratomic.LoadUint64(p) }
-func StoreUint64(p *uint64, v uint64)       { pt("atomic.store"); ratomic.StoreUint64(p, v) }
-func AddUint64(p *uint64, d uint64) uint64  { pt("atomic.add"); return ratomic.AddUint64(p, d) }
+//go:norace
+func LoadUint64(p *uint64) uint64 { pt("atomic.load"); return ratomic.LoadUint64(p) }
+
+//go:norace
+func StoreUint64(p *uint64, v uint64) { pt("atomic.store"); ratomic.StoreUint64(p, v) }
+
+//go:norace
+func AddUint64(p *uint64, d uint64) uint64 { pt("atomic.add"); return ratomic.AddUint64(p, d) }
+
+//go:norace
 func SwapUint64(p *uint64, v uint64) uint64 { pt("atomic.swap"); return ratomic.SwapUint64(p, v) }
+
+//go:norace
 func CompareAndSwapUint64(p *uint64, o, n uint64) bool {
 	pt("atomic.cas")
 	return ratomic.CompareAndSwapUint64(p, o, n)
 }
 
-func LoadUintptr(p *uintptr) uintptr            { pt("atomic.load"); return ratomic.LoadUintptr(p) }
-func StoreUintptr(p *uintptr, v uintptr)        { pt("atomic.store"); ratomic.StoreUintptr(p, v) }
-func AddUintptr(p *uintptr, d uintptr) uintptr  { pt("atomic.add"); return ratomic.AddUintptr(p, d) }
+//go:norace
+func LoadUintptr(p *uintptr) uintptr { pt("atomic.load"); return ratomic.LoadUintptr(p) }
+
+//go:norace
+func StoreUintptr(p *uintptr, v uintptr) { pt("atomic.store"); ratomic.StoreUintptr(p, v) }
+
+//go:norace
+func AddUintptr(p *uintptr, d uintptr) uintptr { pt("atomic.add"); return ratomic.AddUintptr(p, d) }
+
+//go:norace
 func SwapUintptr(p *uintptr, v uintptr) uintptr { pt("atomic.swap"); return ratomic.SwapUintptr(p, v) }
+
+//go:norace
 func CompareAndSwapUintptr(p *uintptr, o, n uintptr) bool {
 	pt("atomic.cas")
 	return ratomic.CompareAndSwapUintptr(p, o, n)
 }
 
+//go:norace
 func LoadPointer(p *unsafe.Pointer) unsafe.Pointer { pt("atomic.load"); return ratomic.LoadPointer(p) }
+
+//go:norace
 func StorePointer(p *unsafe.Pointer, v unsafe.Pointer) {
 	pt("atomic.store")
 	ratomic.StorePointer(p, v)
 }
+
+//go:norace
 func SwapPointer(p *unsafe.Pointer, v unsafe.Pointer) unsafe.Pointer {
 	pt("atomic.swap")
 	return ratomic.SwapPointer(p, v)
 }
+
+//go:norace
 func CompareAndSwapPointer(p *unsafe.Pointer, o, n unsafe.Pointer) bool {
 	pt("atomic.cas")
 	return ratomic.CompareAndSwapPointer(p, o, n)
@@ -77,6 +130,7 @@ func CompareAndSwapPointer(p *unsafe.Pointer, o, n unsafe.Pointer) bool {
 // epoch handling for typed atomics: a package-level typed atomic last used in an earlier execution is reset.
 type es struct{ ep uint64 }
 
+//go:norace
 func (e *es) stale() bool {
 	w := mcrt.W()
 	if w == nil {
@@ -96,15 +150,26 @@ type Int32 struct {
 	e es
 }
 
+//go:norace
 func (x *Int32) sync() {
 	if x.e.stale() {
 		x.v.Store(0)
 	}
 }
-func (x *Int32) Load() int32        { x.sync(); pt("atomic.load"); return x.v.Load() }
-func (x *Int32) Store(v int32)      { x.sync(); pt("atomic.store"); x.v.Store(v) }
-func (x *Int32) Add(d int32) int32  { x.sync(); pt("atomic.add"); return x.v.Add(d) }
+
+//go:norace
+func (x *Int32) Load() int32 { x.sync(); pt("atomic.load"); return x.v.Load() }
+
+//go:norace
+func (x *Int32) Store(v int32) { x.sync(); pt("atomic.store"); x.v.Store(v) }
+
+//go:norace
+func (x *Int32) Add(d int32) int32 { x.sync(); pt("atomic.add"); return x.v.Add(d) }
+
+//go:norace
 func (x *Int32) Swap(v int32) int32 { x.sync(); pt("atomic.swap"); return x.v.Swap(v) }
+
+//go:norace
 func (x *Int32) CompareAndSwap(o, n int32) bool {
 	x.sync()
 	pt("atomic.cas")
@@ -116,15 +181,26 @@ type Int64 struct {
 	e es
 }
 
+//go:norace
 func (x *Int64) sync() {
 	if x.e.stale() {
 		x.v.Store(0)
 	}
 }
-func (x *Int64) Load() int64        { x.sync(); pt("atomic.load"); return x.v.Load() }
-func (x *Int64) Store(v int64)      { x.sync(); pt("atomic.store"); x.v.Store(v) }
-func (x *Int64) Add(d int64) int64  { x.sync(); pt("atomic.add"); return x.v.Add(d) }
+
+//go:norace
+func (x *Int64) Load() int64 { x.sync(); pt("atomic.load"); return x.v.Load() }
+
+//go:norace
+func (x *Int64) Store(v int64) { x.sync(); pt("atomic.store"); x.v.Store(v) }
+
+//go:norace
+func (x *Int64) Add(d int64) int64 { x.sync(); pt("atomic.add"); return x.v.Add(d) }
+
+//go:norace
 func (x *Int64) Swap(v int64) int64 { x.sync(); pt("atomic.swap"); return x.v.Swap(v) }
+
+//go:norace
 func (x *Int64) CompareAndSwap(o, n int64) bool {
 	x.sync()
 	pt("atomic.cas")
@@ -136,15 +212,26 @@ type Uint32 struct {
 	e es
 }
 
+//go:norace
 func (x *Uint32) sync() {
 	if x.e.stale() {
 		x.v.Store(0)
 	}
 }
-func (x *Uint32) Load() uint32         { x.sync(); pt("atomic.load"); return x.v.Load() }
-func (x *Uint32) Store(v uint32)       { x.sync(); pt("atomic.store"); x.v.Store(v) }
-func (x *Uint32) Add(d uint32) uint32  { x.sync(); pt("atomic.add"); return x.v.Add(d) }
+
+//go:norace
+func (x *Uint32) Load() uint32 { x.sync(); pt("atomic.load"); return x.v.Load() }
+
+//go:norace
+func (x *Uint32) Store(v uint32) { x.sync(); pt("atomic.store"); x.v.Store(v) }
+
+//go:norace
+func (x *Uint32) Add(d uint32) uint32 { x.sync(); pt("atomic.add"); return x.v.Add(d) }
+
+//go:norace
 func (x *Uint32) Swap(v uint32) uint32 { x.sync(); pt("atomic.swap"); return x.v.Swap(v) }
+
+//go:norace
 func (x *Uint32) CompareAndSwap(o, n uint32) bool {
 	x.sync()
 	pt("atomic.cas")
@@ -156,15 +243,26 @@ type Uint64 struct {
 	e es
 }
 
+//go:norace
 func (x *Uint64) sync() {
 	if x.e.stale() {
 		x.v.Store(0)
 	}
 }
-func (x *Uint64) Load() uint64         { x.sync(); pt("atomic.load"); return x.v.Load() }
-func (x *Uint64) Store(v uint64)       { x.sync(); pt("atomic.store"); x.v.Store(v) }
-func (x *Uint64) Add(d uint64) uint64  { x.sync(); pt("atomic.add"); return x.v.Add(d) }
+
+//go:norace
+func (x *Uint64) Load() uint64 { x.sync(); pt("atomic.load"); return x.v.Load() }
+
+//go:norace
+func (x *Uint64) Store(v uint64) { x.sync(); pt("atomic.store"); x.v.Store(v) }
+
+//go:norace
+func (x *Uint64) Add(d uint64) uint64 { x.sync(); pt("atomic.add"); return x.v.Add(d) }
+
+//go:norace
 func (x *Uint64) Swap(v uint64) uint64 { x.sync(); pt("atomic.swap"); return x.v.Swap(v) }
+
+//go:norace
 func (x *Uint64) CompareAndSwap(o, n uint64) bool {
 	x.sync()
 	pt("atomic.cas")
@@ -176,14 +274,23 @@ type Bool struct {
 	e es
 }
 
+//go:norace
 func (x *Bool) sync() {
 	if x.e.stale() {
 		x.v.Store(false)
 	}
 }
-func (x *Bool) Load() bool       { x.sync(); pt("atomic.load"); return x.v.Load() }
-func (x *Bool) Store(v bool)     { x.sync(); pt("atomic.store"); x.v.Store(v) }
+
+//go:norace
+func (x *Bool) Load() bool { x.sync(); pt("atomic.load"); return x.v.Load() }
+
+//go:norace
+func (x *Bool) Store(v bool) { x.sync(); pt("atomic.store"); x.v.Store(v) }
+
+//go:norace
 func (x *Bool) Swap(v bool) bool { x.sync(); pt("atomic.swap"); return x.v.Swap(v) }
+
+//go:norace
 func (x *Bool) CompareAndSwap(o, n bool) bool {
 	x.sync()
 	pt("atomic.cas")
@@ -195,14 +302,23 @@ type Pointer[T any] struct {
 	e es
 }
 
+//go:norace
 func (x *Pointer[T]) sync() {
 	if x.e.stale() {
 		x.v.Store(nil)
 	}
 }
-func (x *Pointer[T]) Load() *T     { x.sync(); pt("atomic.load"); return x.v.Load() }
-func (x *Pointer[T]) Store(v *T)   { x.sync(); pt("atomic.store"); x.v.Store(v) }
+
+//go:norace
+func (x *Pointer[T]) Load() *T { x.sync(); pt("atomic.load"); return x.v.Load() }
+
+//go:norace
+func (x *Pointer[T]) Store(v *T) { x.sync(); pt("atomic.store"); x.v.Store(v) }
+
+//go:norace
 func (x *Pointer[T]) Swap(v *T) *T { x.sync(); pt("atomic.swap"); return x.v.Swap(v) }
+
+//go:norace
 func (x *Pointer[T]) CompareAndSwap(o, n *T) bool {
 	x.sync()
 	pt("atomic.cas")
@@ -213,7 +329,14 @@ type Value struct {
 	v ratomic.Value
 }
 
-func (x *Value) Load() any                    { pt("atomic.load"); return x.v.Load() }
-func (x *Value) Store(v any)                  { pt("atomic.store"); x.v.Store(v) }
-func (x *Value) Swap(v any) any               { pt("atomic.swap"); return x.v.Swap(v) }
+//go:norace
+func (x *Value) Load() any { pt("atomic.load"); return x.v.Load() }
+
+//go:norace
+func (x *Value) Store(v any) { pt("atomic.store"); x.v.Store(v) }
+
+//go:norace
+func (x *Value) Swap(v any) any { pt("atomic.swap"); return x.v.Swap(v) }
+
+//go:norace
 func (x *Value) CompareAndSwap(o, n any) bool { pt("atomic.cas"); return x.v.CompareAndSwap(o, n) }
